@@ -18,4 +18,5 @@ MUTANTS = [
     # revert of repair 13e609e
     ('c04-revert-value-flags-sticky-errors', 'C04', V, "                o.errors = o.errors or v.errors\n", "                o.errors = v.errors\n"),
     ('c04-revert-value-flags-sticky-parent-errors', 'C04', V, "                o.parent.errors = o.parent.errors or o.errors\n", "                o.parent.errors = o.errors\n"),
+    ('c04-sleeping-handler-not-counted-as-waiting', 'C04', M, '                # TODO: The subtask is considered a "waiting handler"\n                event.waitingHandlers += 1\n', '                # TODO: The subtask is considered a "waiting handler"\n'),
 ]
